@@ -4,6 +4,16 @@ import (
 	sdb "github.com/alicebob/sqlittle/db"
 )
 
+// lookupErr is the error to report when the table row an index entry points
+// to can't be loaded: either the read error, or (no error, but no row) a
+// corrupted database.
+func lookupErr(err error) error {
+	if err != nil {
+		return err
+	}
+	return sdb.ErrCorrupted
+}
+
 // index scan on a rowid table
 func indexedSelect(
 	db *sdb.Database,
@@ -27,19 +37,25 @@ func indexedSelect(
 		return err
 	}
 
-	return ind.Scan(func(r sdb.Record) bool {
+	var cbErr error
+	if err := ind.Scan(func(r sdb.Record) bool {
 		rowid, _, err := sdb.ChompRowid(r)
 		if err != nil {
-			return false
+			cbErr = err
+			return true
 		}
 		row, err := tab.Rowid(rowid)
 		if err != nil || row == nil {
 			// row should never be nil
-			return false
+			cbErr = lookupErr(err)
+			return true
 		}
 		cb(toRow(rowid, ci, row))
 		return false
-	})
+	}); err != nil {
+		return err
+	}
+	return cbErr
 }
 
 // index (==) search on a rowid table
@@ -66,21 +82,27 @@ func indexedSelectEq(
 		return err
 	}
 
-	return ind.ScanEq(
+	var cbErr error
+	if err := ind.ScanEq(
 		key,
 		func(r sdb.Record) bool {
 			rowid, _, err := sdb.ChompRowid(r)
 			if err != nil {
-				return false
+				cbErr = err
+				return true
 			}
 			row, err := tab.Rowid(rowid)
 			if err != nil || row == nil {
 				// row should never be nil
-				return false
+				cbErr = lookupErr(err)
+				return true
 			}
 			cb(toRow(rowid, ci, row))
 			return false
-		})
+		}); err != nil {
+		return err
+	}
+	return cbErr
 }
 
 // index scan on a WITHOUT ROWID table
@@ -114,7 +136,8 @@ func indexedSelectNonRowid(
 		return err
 	}
 
-	return ind.Scan(func(r sdb.Record) bool {
+	var cbErr error
+	if err := ind.Scan(func(r sdb.Record) bool {
 		setKey(r, cols, pk)
 
 		var found sdb.Record
@@ -124,11 +147,15 @@ func indexedSelectNonRowid(
 		})
 		if err != nil || found == nil {
 			// found should never be nil
-			return false
+			cbErr = lookupErr(err)
+			return true
 		}
 		cb(toRow(0, ci, found))
 		return false
-	})
+	}); err != nil {
+		return err
+	}
+	return cbErr
 }
 
 // index (==) search on a WITHOUT ROWID table
@@ -163,7 +190,8 @@ func indexedSelectEqNonRowid(
 		return err
 	}
 
-	return ind.ScanEq(
+	var cbErr error
+	if err := ind.ScanEq(
 		key,
 		func(r sdb.Record) bool {
 			setKey(r, cols, pk)
@@ -172,12 +200,16 @@ func indexedSelectEqNonRowid(
 			err := tab.ScanEq(pk, func(row sdb.Record) bool { found = row; return true })
 			if err != nil || found == nil {
 				// found should never be nil
-				return false
+				cbErr = lookupErr(err)
+				return true
 			}
 			cb(toRow(0, ci, found))
 			return false
 		},
-	)
+	); err != nil {
+		return err
+	}
+	return cbErr
 }
 
 // make a key from columns from the record
